@@ -16,6 +16,7 @@ CONSTANTS
   VarVals <- VarValsStd
   MaxOverlay = 0
   TRSets <- NoTR
+  FalsyOverlays = FALSE
 INVARIANT R1_Exec
 INVARIANT Emit
 CHECK_DEADLOCK FALSE
